@@ -22,6 +22,12 @@ def make_case(rng, tg, fault):
         t[8] = [k for k in t[8] if k[1] != "references"] or tg.valid_tree("creator", rng, maxdepth=1)[8]
         if any(k[1] == "references" for _, k in gen.nodes_of(t)):
             t = impl.T(el, None, [impl.T("organizationName", "org")] + ([impl.T("role", "r")] if el == "associatedParty" else []), [["id", f"p{i}"]])
+        # every field of the referenced element's children must arrive in the copies: also tail text (mixed content) and extras
+        for pth, x in gen.nodes_of(t):
+            if pth and rng.random() < 0.3:
+                x[3] = rng.choice(["", " tail ", "t"])
+            if pth and rng.random() < 0.15:
+                x[6] = [["k", "v"]]
         srcs.append(t); items.append(t)
     for j in range(rng.randint(0, 4)):
         el = rng.choice(["creator", "contact", "metadataProvider", "associatedParty"])
@@ -113,7 +119,7 @@ def run(ctx):
         nrefs = sum(1 for _, x in gen.nodes_of(orig) if x[1] == "references")
         case = {"tree": orig, "fault": fault}
         try:
-            references.expand(root)
+            impl.limited(references.expand, root)
             outcome = "ok"
         except ValueError:
             outcome = "ValueError"
